@@ -99,6 +99,9 @@ def data_programs(tier):
         ("data:empty-two-lines", "10 READ A , B , C , D , E\n20 DATA 7 , , 9\n30 DATA 4 , 5"),
         ("data:empty-last-line", "10 READ A , B , C , D\n20 DATA 7 , 9\n30 DATA , 5"),
         ("data:empty-overwrite", "10 A = 7 : READ A , B\n20 DATA , 5"),
+        ("data:hex-boundary", "10 READ A , B , C , D\n20 DATA &H7FFF , &H8000 , &H8001 , &HFFFF"),
+        ("data:hex-boundary-empty", "10 READ A , B , C\n20 DATA &H7FFF , &H8000 ,"),
+        ("data:hex-boundary-print", "10 PRINT &H8000 ; &H7FFF : Z = &H8000"),
     ]
     # unquoted items are data up to the next comma / colon / line end: every other character belongs to the item
     for nm, item in (("apostrophe", "IT'S"), ("apostrophe-first", "'TIS"), ("apostrophe-last", "DOGS'"), ("question", "WHO?"), ("semicolon", "A;B"), ("parens", "F(1)"),
@@ -155,6 +158,8 @@ def init_programs():
         ("init:in-function", "10 Z = ABS ( A ) + LEN ( B$ )"), ("init:read-then-use", "10 READ A : Z = A + B\n20 DATA 4"),
         ("init:device-operand", "10 SOUND A , B"), ("init:poke", "10 POKE A , B"), ("init:subscript", "10 DIM Q ( 5 ) : Z = Q ( I )"),
         ("init:gosub", "10 GOSUB 30\n20 END\n30 Z = A : RETURN"), ("init:second-line", "10 Z = 1\n20 Y = A + Z"),
+        ("init:for-variable-read-before-loop", '10 IF K = 0 THEN PRINT "FIRST"\n20 FOR K = 1 TO 3 : NEXT K'), ("init:for-variable-in-subroutine", "10 GOSUB 40\n20 FOR I = 1 TO 2 : NEXT I\n30 END\n40 Z = I : RETURN"),
+        ("init:for-limit-variable", "10 FOR I = 1 TO N : NEXT I : Z = I + N"), ("init:next-variable-only", "10 Z = J\n20 FOR J = 1 TO 2\n30 NEXT"),
         ("init:hoisted-arg", "10 Z = INT ( A )"), ("init:print-number", "10 PRINT A + 0"), ("init:input-then-use", "10 INPUT A : Z = A + B"),
     ]
 
@@ -297,13 +302,14 @@ def dim_bounds(ctx):
                         ctx.violation(f"dim-fill-loop-bound:{'hex' if hexlit else 'dec'}", f"DIM A({val}) with initialize_vars: fill loop does not end at {val}; template {shape!r}", {"bound": val})
 
 
-def capacity(ctx):
+def capacity(ctx, progs=None):
     from vf.props.c10 import collect_decls, collect_uses
     from vf.tv import b09front
     from vf.tv.lex import SyntaxErr
 
     size = 80
-    progs = string_function_programs() + [("strfn-print:" + e, "10 PRINT " + e) for e in ("STRING$ ( 40 , \"*\" )", "STR$ ( N ) + HEX$ ( N )", "LEFT$ ( A$ , 2 ) + STR$ ( N )")]
+    if progs is None:
+        progs = string_function_programs() + [("strfn-print:" + e, "10 PRINT " + e) for e in ("STRING$ ( 40 , \"*\" )", "STR$ ( N ) + HEX$ ( N )", "LEFT$ ( A$ , 2 ) + STR$ ( N )")]
     for label, src in progs:
         o = classify(src + "\n", default_str_storage=size)
         ctx.stats["programs"] += 1
